@@ -46,6 +46,7 @@ SpreadOps == {"DeleteRecords", "ListConsumerGroupOffsets", "DescribeConsumerGrou
 TypedOps == {"CreateTopic", "DeleteTopic", "CreatePartitions", "DeleteConsumerGroup"}
 TypedCls == {"kerr", "topicerr", "tperr"}
 NotController == 41
+NoCtl == -1            \* "no controller": what a metadata answer says during an election
 
 When(cond, c) == IF cond THEN {c} ELSE {}
 
@@ -55,11 +56,15 @@ VersionClauses(op, kv, api, v) ==
 
 -----------------------------------------------------------------------------
 (* ---------- controller-bound operations ----------
-   case = [op, kv, max, init, script]; att = sequence of
+   case = [op, kv, max, init, pre, script]; script[j] = <<answer, move target / code, placement,
+   k>> (k: after this step-down the next k metadata answers name no controller); pre = what the
+   client knows at the start ("cached" / "empty" / "none": see Admin.tla); att = sequence of
    [b, ctl, after, api, v, ans, code]:  b the broker that received the k-th request of the
    operation, ctl the true controller when it arrived, after the true controller when the
    answer left (a NOT_CONTROLLER answer may come with a move), ans in
-   {"ack","nc","err","inc","conn"}.  res = [cls, code], cls = "nil" for success.         *)
+   {"ack","nc","err","inc","conn"}.  res = [cls, code], cls = "nil" for success.
+   tail = the controller named (NoCtl: nobody) by each metadata answer the client got after
+   the last request (after the start when there was no request).                          *)
 
 \* clauses decided when the k-th request (the last element of att) arrives
 CtlReqViol(case, att) ==
@@ -80,8 +85,21 @@ FirstDecisive(script) ==
   THEN CHOOSE j \in 1..Len(script) : script[j][1] # "nc" /\ \A i \in 1..(j - 1) : script[i][1] = "nc"
   ELSE 0
 
+(* A retry is a new attempt, and an attempt starts by finding the controller. After a
+   NOT_CONTROLLER answer the admin refreshes (first metadata answer) and, if that named nobody,
+   the new attempt looks the controller up itself (second metadata answer). An operation that
+   ends with budget left is excused only if that look-up of the NEW attempt found no controller
+   either - not if it never started the new attempt.                                        *)
+NewAttemptFoundNobody(n, tail) ==
+  Len(tail) >= (IF n = 0 THEN 1 ELSE 2) /\ tail[Len(tail)] = NoCtl
+
+\* the j-th scripted answer can be reached: the client can find a controller for every attempt up to j
+Reachable(case, j) ==
+  /\ case.pre # "none"
+  /\ \A i \in 1..(j - 1) : case.script[i][4] <= 1
+
 \* clauses decided when the call returns
-CtlRetViol(case, att, res) ==
+CtlRetViol(case, att, res, tail) ==
   LET n == Len(att)
       last == att[n]
       j == FirstDecisive(case.script)
@@ -89,12 +107,13 @@ CtlRetViol(case, att, res) ==
      When(res.cls \in {"hang", "panic"}, "completes")
      \* "succeed whenever some attempt within Admin.Retry.Max is acknowledged by the
      \*  then-current controller" - declaratively, from the script: every attempt before the
-     \*  j-th is answered NOT_CONTROLLER (with the move the script names), the j-th one is
-     \*  acknowledged, and j is within the budget
-     \cup When(j >= 1 /\ j <= case.max /\ case.script[j][1] = "ack" /\ res.cls # "nil",
+     \*  j-th is answered NOT_CONTROLLER (with the move the script names; an election of at most
+     \*  one metadata answer is ridden out by the refresh), the j-th one is acknowledged, and j
+     \*  is within the budget
+     \cup When(j >= 1 /\ j <= case.max /\ case.script[j][1] = "ack" /\ Reachable(case, j) /\ res.cls # "nil",
                "succeeds_when_acked_within_budget")
      \* a NOT_CONTROLLER answer is retried while the budget lasts
-     \cup When(n >= 1 /\ last.ans = "nc" /\ n < case.max, "not_controller_is_retried")
+     \cup When(n >= 1 /\ last.ans = "nc" /\ n < case.max /\ ~NewAttemptFoundNobody(n, tail), "not_controller_is_retried")
      \* "success is reported only if the broker reported none": success needs a request that
      \* the controller acknowledged, and it is the last thing that happened
      \cup When(res.cls = "nil" /\ (n = 0 \/ (n >= 1 /\ last.ans # "ack")), "success_only_if_acked")
@@ -105,6 +124,9 @@ CtlRetViol(case, att, res) ==
      \cup When(n >= 1 /\ last.ans = "err" /\ case.op \in TypedOps /\ res.cls \notin {"nil", "hang", "panic"}
                /\ ~(res.cls \in TypedCls /\ res.code = last.code),
                "other_error_returned_unchanged")
+     \* an operation may end with the local "no controller" error only if its last look-up
+     \* really found nobody: it reports what a broker answered, or that nobody could be asked
+     \cup When(res.cls = "nocontroller" /\ ~(Len(tail) >= 1 /\ tail[Len(tail)] = NoCtl), "no_controller_only_if_none_named")
 
 -----------------------------------------------------------------------------
 (* ---------- leader- / coordinator-bound operations ----------
